@@ -419,6 +419,8 @@ def run(func, backend, max_paths=256):
     params = []
     env0 = {}
     for ty, name in func.params:
+        if ty.endswith("*"):
+            ty = "i64"  # a pointer argument: an opaque 64-bit value (never dereferenced by the functions in scope)
         if not re.fullmatch(r"i\d+", ty):
             raise Unsupported(f"parameter type {ty}")
         v = backend.param(ty, "arg" + name.replace("%", "_"))
@@ -432,6 +434,8 @@ def run(func, backend, max_paths=256):
             if tok not in env:
                 raise Unsupported(f"use of undefined value {tok}")
             return env[tok]
+        if tok == "null":
+            return backend.const(ty if re.fullmatch(r"i\d+", ty) else "i64", "0")
         return backend.const(ty, tok)
 
     def step(label, prev, env, path, depth):
@@ -483,6 +487,26 @@ def run(func, backend, max_paths=256):
                 env[ins.dest] = agg[1 + ins.idx]
             elif op == "load_global":
                 env[ins.dest] = ("global", ins.name)
+            elif op == "nop":
+                pass
+            elif op == "alloca":
+                # a local scalar whose address is taken (out-parameter of a callee); uninitialised
+                env[ins.dest] = ("alloca", ins.dest, ins.ty)
+            elif op == "alias":
+                env[ins.dest] = env[ins.a]
+            elif op == "store":
+                tgt = env.get(ins.ptr)
+                if not (isinstance(tgt, tuple) and tgt[0] == "alloca"):
+                    raise Unsupported("store through a pointer that is not a local alloca")
+                env[("mem", tgt[1])] = val(env, ins.ty, ins.a)
+            elif op == "load":
+                tgt = env.get(ins.ptr)
+                if not (isinstance(tgt, tuple) and tgt[0] == "alloca"):
+                    raise Unsupported("load through a pointer that is not a local alloca")
+                if ("mem", tgt[1]) not in env:
+                    path.ub.append((list(path.conds), z3.BoolVal(False), f"load of uninitialised local {tgt[1]}"))
+                    env[("mem", tgt[1])] = backend.param(ins.ty, f"uninit{tgt[1].replace('%', '_')}")
+                env[ins.dest] = env[("mem", tgt[1])]
             elif op == "call":
                 calls[0] += 1
                 if ins.callee == "PyErr_SetString":
@@ -490,10 +514,24 @@ def run(func, backend, max_paths=256):
                     path.events.append(("raise", g[1] if isinstance(g, tuple) else "?"))
                 else:
                     args = []
+                    outs = []
                     for t, tok in ins.args:
-                        args.append(val(env, t, tok) if re.fullmatch(r"i\d+", t) else tok)
-                    path.events.append(("call", ins.callee, args))
-                    r = backend.call_result(ins.ty, ins.callee, calls[0])
+                        tgt = env.get(tok) if isinstance(tok, str) else None
+                        if isinstance(tgt, tuple) and tgt and tgt[0] == "alloca":
+                            # out-parameter: the callee may write the local; its new value is the call's
+                            ov = backend.param(tgt[2], f"out!{ins.callee}!{calls[0]}")
+                            env[("mem", tgt[1])] = ov
+                            outs.append(ov)
+                            args.append(("out", ov))
+                        elif re.fullmatch(r"i\d+", t):
+                            args.append(val(env, t, tok))
+                        elif t.endswith("*") and isinstance(tok, str) and tok in env and not isinstance(env[tok], tuple):
+                            args.append(env[tok])
+                        else:
+                            args.append(tok)
+                    rty = "i64" if ins.ty.endswith("*") else ins.ty
+                    r = backend.call_result(rty, ins.callee, calls[0])
+                    path.events.append(("call", ins.callee, args, r))
                     if ins.dest:
                         env[ins.dest] = r
             elif op == "br":
